@@ -229,3 +229,34 @@ def threshold_search_ignores_an_additive_constant_of_the_log_density(h, itr):
     h.le("returned point inside the bracket (upper)", ra, x2)
     if len(seen_a) < itr:
         h.le("stopped early only within the default tolerance 0.05 of the target", abs(g(np.array([ra], dtype=dt)) - target), 0.05)
+
+
+@unit("C20", quick=[dict(pattern="SFS"), dict(pattern="FSS")], thorough=[dict(pattern="SFSF")], max_paths=2000, cost=3, timeout_ms=60000)
+def trapezium_transform_pairs_every_offset_with_its_own_cell(h, pattern):
+    """a batch of uniforms whose cells are a mixture of flat cells (F: |dh| < 1e-5, series branch) and sloped cells (S: exact
+    branch), in any order: entry k of the result must solve the quadratic of entry k's own (u_k, dh_k) -- the in-cell offsets
+    are paired element-wise with the cells that were drawn"""
+    cd = _mod(h)
+    dt = object if h.sym else float
+    us, ds = [], []
+    for k, c in enumerate(pattern):
+        us.append(h.real(f"u{k}", lo=0, hi=1))
+        if c == "F":
+            ds.append(h.real(f"d{k}", lo=-1e-5, hi=1e-5, lo_strict=True, hi_strict=True))
+        else:
+            dk = h.real(f"d{k}", lo=-1, hi=1)
+            h.assume((dk >= 1e-5) | (dk <= -1e-5), "|d| >= 1e-5 for the sloped cells")
+            ds.append(dk)
+    ua, da = np.array(us, dtype=dt), np.array(ds, dtype=dt)
+    if h.sym:
+        ua, da = forking(ua), forking(da)
+    t = np.asarray(cd.trapezium_transform(ua, da)).view(np.ndarray)
+    h.same("one offset per uniform", t.shape, (len(pattern),))
+    for k, c in enumerate(pattern):
+        res = ds[k] * t[k] * t[k] + (1 - ds[k]) * t[k] - us[k]
+        if c == "S":
+            h.eq(f"entry {k} (sloped): d t^2 + (1-d) t == u for its own (u, d)", res, 0.0 * us[k])
+        else:
+            h.le(f"entry {k} (flat): | d t^2 + (1-d) t - u | <= 1e-9 for its own (u, d)", abs(res), 1e-9, tol=1e-7)
+        h.ge(f"entry {k} >= 0", t[k], 0.0)
+        h.le(f"entry {k} <= 1", t[k], 1.0)
